@@ -26,3 +26,6 @@ REG.contract(C + "__init__", params={"config_dict": "None"}, tags=TAGS, modifies
              ensures=["self.EVAL_UNSEEN_CATEGORIES == 'error'"])
 
 FUNCTIONS = [C + f for f in ("__setattr__", "__setitem__", "__getitem__", "__init__")]
+
+
+ASSUMPTIONS = []
